@@ -219,6 +219,17 @@ func (d *Device) Snapshot() map[string]string {
 	return r
 }
 
+// PathsEverHeld returns the structured path of every canonical path the device ever held.
+func (d *Device) PathsEverHeld() map[string]*sdcpb.Path {
+	d.mu.Lock()
+	defer d.mu.Unlock()
+	r := make(map[string]*sdcpb.Path, len(d.prePaths))
+	for k, v := range d.prePaths {
+		r[k] = v
+	}
+	return r
+}
+
 // NumCalls returns how many Set calls arrived so far.
 func (d *Device) NumCalls() int {
 	d.mu.Lock()
